@@ -411,6 +411,9 @@ func explore(sh *interp.Shared, h *ssa.Function, known map[string]bool) *harness
 						fmt.Printf("  path %s ended: %s: %s\n", interp.DecString(res.Decs), res.Status, res.Reason)
 					}
 				}
+				if *verbose && len(res.Violations) > 0 && len(res.Observed) > 0 {
+					fmt.Printf("  violation path %s labels=%s observed=%v\n", interp.DecString(res.Decs), res.Violations[0].Label, res.Observed)
+				}
 				st.Violations = append(st.Violations, res.Violations...)
 				if len(st.Samples) < 4 && res.Status == "ok" {
 					st.Samples = append(st.Samples, sample(h.Name(), res))
